@@ -1,7 +1,159 @@
-//! C18 operations (op names start with `c18.`)
-#[allow(unused_imports)]
+//! C18 — DER INTEGER and RLP codecs of `Uint<N>` (src/uint/encoding/{der,rlp}.rs, src/uint/array.rs).
+//! Every decoder error is printed as `err` (the property only demands "an error"); a panic is
+//! printed as `panic` by main.rs.
 use crate::util::*;
+use crypto_bigint::Uint;
+use der::asn1::{AnyRef, UintRef};
+use der::{Decode, Encode, EncodeValue, Tag};
 
-pub fn dispatch(_op: &str, _a: &[&str]) -> Option<String> {
-    None
+macro_rules! widths {
+    ($n:expr, $f:ident, $($args:expr),*) => {
+        match $n {
+            1 => $f::<1>($($args),*),
+            2 => $f::<2>($($args),*),
+            3 => $f::<3>($($args),*),
+            4 => $f::<4>($($args),*),
+            6 => $f::<6>($($args),*),
+            7 => $f::<7>($($args),*),
+            8 => $f::<8>($($args),*),
+            16 => $f::<16>($($args),*),
+            32 => $f::<32>($($args),*),
+            128 => $f::<128>($($args),*),
+            _ => Some("unsupported-width".to_string()),
+        }
+    };
+}
+
+fn res<const N: usize, E>(r: Result<Uint<N>, E>) -> String {
+    match r {
+        Ok(v) => uhex(&v),
+        Err(_) => "err".into(),
+    }
+}
+
+fn der_ops<const N: usize>(op: &str, a: &[&str]) -> Option<String>
+where
+    Uint<N>: crypto_bigint::ArrayEncoding,
+{
+    Some(match (op, a) {
+        // Encode::to_der (header + value through UintRef)
+        ("c18.der.to_der", [v]) => {
+            let v = arg!(uint::<N>(v));
+            match v.to_der() {
+                Ok(b) => bytes_tok(&b),
+                Err(_) => "err".into(),
+            }
+        }
+        // Encode::encoded_len and EncodeValue::value_len
+        ("c18.der.len", [v]) => {
+            let v = arg!(uint::<N>(v));
+            match (v.encoded_len(), v.value_len()) {
+                (Ok(e), Ok(l)) => format!("{} {}", u32::from(e), u32::from(l)),
+                _ => "err".into(),
+            }
+        }
+        // Encode::encode_to_slice into a buffer of the given size (too small => err)
+        ("c18.der.encode_to_slice", [v, cap]) => {
+            let v = arg!(uint::<N>(v));
+            let mut buf = vec![0u8; arg!(dec(cap))];
+            match v.encode_to_slice(&mut buf) {
+                Ok(b) => bytes_tok(b),
+                Err(_) => "err".into(),
+            }
+        }
+        // Decode::from_der (Header::decode, tag check, DecodeValue, trailing-data check)
+        ("c18.der.from_der", [b]) => {
+            let b = arg!(bytes(b));
+            res(Uint::<N>::from_der(&b))
+        }
+        // AnyRef::from_der then TryFrom<AnyRef>
+        ("c18.der.any_from_der", [b]) => {
+            let b = arg!(bytes(b));
+            match AnyRef::from_der(&b) {
+                Ok(any) => res(Uint::<N>::try_from(any)),
+                Err(_) => "err".into(),
+            }
+        }
+        // TryFrom<AnyRef> on a hand-made ANY (tag octet, content octets)
+        ("c18.der.any", [t, b]) => {
+            let t = arg!(bytes(t));
+            let b = arg!(bytes(b));
+            if t.len() != 1 {
+                return Some(BAD.into());
+            }
+            match Tag::try_from(t[0]).and_then(|tag| AnyRef::new(tag, &b)) {
+                Ok(any) => res(Uint::<N>::try_from(any)),
+                Err(_) => "err".into(),
+            }
+        }
+        // TryFrom<UintRef> on a hand-made UintRef (UintRef::new strips leading zeros)
+        ("c18.der.uintref", [b]) => {
+            let b = arg!(bytes(b));
+            match UintRef::new(&b) {
+                Ok(u) => res(Uint::<N>::try_from(u)),
+                Err(_) => "err".into(),
+            }
+        }
+        _ => return None,
+    })
+}
+
+/// `rlp::Encodable` exists for every alias width
+fn rlp_enc<const N: usize>(op: &str, a: &[&str]) -> Option<String>
+where
+    Uint<N>: crypto_bigint::Encoding + rlp::Encodable,
+{
+    Some(match (op, a) {
+        ("c18.rlp.encode", [v]) => {
+            let v = arg!(uint::<N>(v));
+            bytes_tok(&rlp::encode(&v))
+        }
+        _ => return None,
+    })
+}
+
+/// `rlp::Decodable` needs `Repr: Default`, i.e. `[u8; BYTES]` with `BYTES <= 32`: U64, U128, U192, U256 only
+fn rlp_dec<const N: usize>(op: &str, a: &[&str]) -> Option<String>
+where
+    Uint<N>: crypto_bigint::Encoding + rlp::Encodable + rlp::Decodable,
+{
+    Some(match (op, a) {
+        ("c18.rlp.decode", [b]) => {
+            let b = arg!(bytes(b));
+            res(rlp::decode::<Uint<N>>(&b))
+        }
+        // the same value as the only element of a list: RlpStream::append inside a list, Rlp::val_at
+        ("c18.rlp.list1", [v]) => {
+            let v = arg!(uint::<N>(v));
+            let mut s = rlp::RlpStream::new_list(1);
+            s.append(&v);
+            let out = s.out();
+            let back = rlp::Rlp::new(&out).val_at::<Uint<N>>(0);
+            format!("{} {}", bytes_tok(&out), res(back))
+        }
+        _ => return None,
+    })
+}
+
+pub fn dispatch(op: &str, a: &[&str]) -> Option<String> {
+    if a.is_empty() {
+        return None;
+    }
+    let n = arg!(dec(a[0]));
+    let rest = &a[1..];
+    if op.starts_with("c18.der.") {
+        widths!(n, der_ops, op, rest)
+    } else if op == "c18.rlp.encode" {
+        widths!(n, rlp_enc, op, rest)
+    } else if op.starts_with("c18.rlp.") {
+        match n {
+            1 => rlp_dec::<1>(op, rest),
+            2 => rlp_dec::<2>(op, rest),
+            3 => rlp_dec::<3>(op, rest),
+            4 => rlp_dec::<4>(op, rest),
+            _ => Some("unsupported-width".to_string()),
+        }
+    } else {
+        None
+    }
 }
